@@ -699,18 +699,13 @@ func FromV3(doc3 *openapi3.T) (*openapi2.T, error) {
 		ExternalDocs: doc3.ExternalDocs,
 	}
 
-	isHTTPS := false
-	isHTTP := false
+	schemes := make(map[string]bool)
 	servers := doc3.Servers
 	for i, server := range servers {
 		parsedURL, err := url.Parse(server.URL)
 		if err == nil {
 			// See which schemes seem to be supported
-			if parsedURL.Scheme == "https" {
-				isHTTPS = true
-			} else if parsedURL.Scheme == "http" {
-				isHTTP = true
-			}
+			schemes[parsedURL.Scheme] = true
 			// The first server is assumed to provide the base path
 			if i == 0 {
 				doc2.Host = parsedURL.Host
@@ -719,11 +714,11 @@ func FromV3(doc3 *openapi3.T) (*openapi2.T, error) {
 		}
 	}
 
-	if isHTTPS {
-		doc2.Schemes = append(doc2.Schemes, "https")
-	}
-	if isHTTP {
-		doc2.Schemes = append(doc2.Schemes, "http")
+	// the transfer protocols OpenAPI 2 knows
+	for _, scheme := range []string{"https", "http", "wss", "ws"} {
+		if schemes[scheme] {
+			doc2.Schemes = append(doc2.Schemes, scheme)
+		}
 	}
 
 	for path, pathItem := range doc3.Paths.Map() {
